@@ -31,8 +31,15 @@ def thresholds(tier):
 
 
 def knobs_for(rng):
+  k = _knobs_for(rng)
+  if k["widths"] is None: del k["widths"]
+  return k
+
+
+def _knobs_for(rng):
   return {"depth": rng.choice([1, 2, 2, 3]), "max_children": rng.choice([2, 3]), "p_ff": 0.25, "p_connect": 0.4, "p_split": 0.3,
-          "p_struct": 0.25, "p_list": rng.choice([0.2, 0.45]), "p_list2d": rng.choice([0, 0.6]), "max_sigs": 4, "expr_depth": 1, "p_constraints": 0.7, "p_ff_child": rng.choice([0, 0.3]), "p_func": rng.choice([0, 0.3])}
+          "p_struct": 0.25, "p_list": rng.choice([0.2, 0.45]), "p_list2d": rng.choice([0, 0.6]), "max_sigs": 4, "expr_depth": 1, "p_constraints": 0.7, "p_ff_child": rng.choice([0, 0.3]), "p_func": rng.choice([0, 0.3]), "p_connect_reset": rng.choice([0, 0.5, 0.9]),
+          "widths": rng.choice([None, [1, 1, 2, 4, 8]])}
 
 
 def nm(x):
@@ -157,6 +164,7 @@ def run_case(sh, case):
   gen = G.Gen(rng, knobs)
   gen.design["top"] = gen.gen_class(knobs["depth"], True)
   d0 = gen.design
+  for sk, sv in d0.get("stats", {}).items(): sh.count(sk, sv)
   paths = G.instance_paths(d0)
   if not paths:
     sh.count("no_children(skipped)"); return
